@@ -204,6 +204,9 @@ Definition bbox_of (l : list xywh) : xywh :=
       (x1, y1, x2 - x1, y2 - y1)
   end.
 
+(* sraRgnBBox: the bounding box of the empty region is the empty region *)
+Definition bbox_region (l : list xywh) : list xywh := match l with [] => [] | _ => [bbox_of l] end.
+
 Definition wrap16 (n : Z) : Z := n mod 65536.            (* the (uint16_t) cast *)
 
 (* Result of the count stage: announced nRects field, the (possibly coalesced) region that
@@ -215,7 +218,7 @@ Definition announce (pref : Z) (lastrect : bool) (cmw cmh maxrects : Z) (region 
     else
       let '(region', n') :=
         if (maxrects >? 0) && negb (exempt_from_coalescing pref) && (n >? maxrects)
-        then ([bbox_of region], 1) else (region, n) in
+        then (bbox_region region, 1) else (region, n) in
       Some (wrap16 (ncopy + n' + npseudo), region', false)).
 
 Fixpoint emit_region (pref : Z) (lastrect : bool) (cmw cmh : Z) (region : list xywh) : list emitted :=
@@ -265,16 +268,29 @@ Definition count_stage (pref : Z) (lastrect : bool) (cmw cmh : Z) (region : list
   if tight_unknown pref lastrect region then Some (65535, true)
   else obind (n_region_rects pref lastrect cmw cmh region) (fun n => Some (n, false)).
 
-Definition announce_fixed (pref : Z) (lastrect : bool) (cmw cmh maxrects : Z) (region : list xywh)
-           (ncopy npseudo : Z) : option (Z * list xywh * bool) :=
-  obind (count_stage pref lastrect cmw cmh region) (fun '(n, lrm) =>
-  obind (if negb lrm && (ncopy + n + 6 >=? 65535)
-         then obind (count_stage pref lastrect cmw cmh [bbox_of region]) (fun r => Some ([bbox_of region], r))
-         else Some (region, (n, lrm)))
-        (fun '(region1, (n1, lrm1)) =>
-           if lrm1 then Some (65535, region1, true)
-           else
-             let '(region2, n2) :=
-               if (maxrects >? 0) && negb (exempt_from_coalescing pref) && (n1 >? maxrects)
-               then ([bbox_of region1], 1) else (region1, n1) in
-             Some (wrap16 (ncopy + n2 + npseudo), region2, false))).
+(* [two_stage] = the second repair (notes/fix_C03_6.diff) is present: when the bounding box of the update
+   region is not enough because the COPY rectangles alone reach the field size, they are sent as pixels
+   too (merged into the update region, bounding box again).  Result: announced count, region to emit,
+   LastRect mode, "the copy rectangles are still sent as CopyRect". *)
+Definition finish_count (pref : Z) (maxrects npseudo : Z) (region1 : list xywh) (n1 : Z) (lrm1 : bool) (nc : Z) (keep : bool)
+  : option (Z * list xywh * bool * bool) :=
+  if lrm1 then Some (65535, region1, true, keep)
+  else
+    let '(region2, n2) :=
+      if (maxrects >? 0) && negb (exempt_from_coalescing pref) && (n1 >? maxrects)
+      then (bbox_region region1, 1) else (region1, n1) in
+    Some (wrap16 (nc + n2 + npseudo), region2, false, keep).
+
+Definition announce_fixed (two_stage : bool) (pref : Z) (lastrect : bool) (cmw cmh maxrects : Z) (region copyl : list xywh)
+           (npseudo : Z) : option (Z * list xywh * bool * bool) :=
+  let ncopy := Z.of_nat (length copyl) in
+  obind (count_stage pref lastrect cmw cmh region) (fun '(n0, lrm0) =>
+    if lrm0 || (ncopy + n0 + 6 <? 65535) then finish_count pref maxrects npseudo region n0 lrm0 ncopy true
+    else
+      let r1 := bbox_region region in
+      obind (count_stage pref lastrect cmw cmh r1) (fun '(n1, lrm1) =>
+        if lrm1 || negb two_stage || (ncopy + n1 + 6 <? 65535) then finish_count pref maxrects npseudo r1 n1 lrm1 ncopy true
+        else
+          let r2 := bbox_region (r1 ++ copyl) in
+          obind (count_stage pref lastrect cmw cmh r2) (fun '(n2, lrm2) =>
+            finish_count pref maxrects npseudo r2 n2 lrm2 0 false))).
